@@ -122,19 +122,17 @@ class ErrorHandling:
         suggestions = []
         if 0 < len(expected) < 20:
             if self.bad_token is None:
-                # if this is the end of query, just show next expected keywords
-                return list(expected.keys())
+                # the end of the query: show the expected keywords that the parser really takes as the next token
+                # (a row of the parsing table also lists look-aheads that are refused after the pending reductions)
+                for value, token_name in expected.items():
+                    token = self.make_token(value, token_name)
+                    if self.is_next_token(self.tokens + [token], token):
+                        suggestions.append(value)
+                return suggestions
 
             # not every suggestion satisfy the end of the query. we have to check if it works
             for value, token_name in expected.items():
-                # make up a token
-                token = Token()
-                token.type = token_name
-                # a made-up literal carries a text that its grammar action can read
-                token.value = {'[number]': '0', '[string]': "''"}.get(value, value)
-                token.end = 0
-                token.index = 0
-                token.lineno = 0
+                token = self.make_token(value, token_name)
 
                 # try to add token
                 tokens2 = self.tokens[:error_index] + [token] + self.tokens[error_index:]
@@ -149,6 +147,27 @@ class ErrorHandling:
                     continue
 
         return suggestions
+
+    @staticmethod
+    def make_token(value, token_name):
+        # make up a token
+        token = Token()
+        token.type = token_name
+        # a made-up literal carries a text that its grammar action can read
+        token.value = {'[number]': '0', '[string]': "''"}.get(value, value)
+        token.end = 0
+        token.index = 0
+        token.lineno = 0
+        return token
+
+    def is_next_token(self, tokens, token):
+        # the parser gets past the made-up token: the tokens are a whole query, or the first error comes later
+        try:
+            ast = self.parser.parse(iter(tokens))
+        except ParsingException:
+            # refused by a grammar action (LIMIT 'x')
+            return False
+        return ast is not None or self.parser.error_info['bad_token'] is not token
 
     def query_is_valid(self, tokens):
         # try to parse list of tokens
